@@ -58,6 +58,7 @@ func (p Parser) ParseFile(fileName string) {
 	f, err := os.Open(fileName)
 	if err != nil {
 		p.Errors <- NewErrorIO(err, fileName)
+		p.Done <- true
 		return
 	}
 	defer f.Close()
@@ -165,8 +166,9 @@ func ParseStreamCallback(reader io.Reader, c Config, callback ParseCallback) err
 func (p Parser) ParseStream(reader io.Reader) {
 	if err := ParseStreamCallback(reader, p.config, func(n *shared.ParserNode, err error) (stop bool, cbError error) {
 		if err != nil {
+			// the error has been delivered: stop without returning it, or it would be sent a second time below
 			p.Errors <- err
-			return true, err
+			return true, nil
 		}
 		p.Nodes <- n
 		return false, nil
